@@ -147,5 +147,23 @@ pub fn run(o: &Opts) -> Report {
         let model = driver_batch(&o.driver, &reqs, o.par);
         for ((req, m), i) in reqs.iter().zip(model.iter()).zip(impls.iter()) { if m != i { rep.disagree("parse", req, m, i); } }
     }
+    {
+        use crate::pcorr::*;
+        // `args_override_self` set on an ancestor reaches every level below it: a repeated `Set` option is last-wins there too
+        let mk = |at: usize| { let mut leaf = CmdS { name: "leaf".into(), ..Default::default() };
+            leaf.args.push(ArgS { id: "opt".into(), long: Some("opt".into()), action: Some("set"), ..Default::default() });
+            leaf.args.push(ArgS { id: "flag".into(), long: Some("flag".into()), action: Some("setTrue"), ..Default::default() });
+            let mut mid = CmdS { name: "mid".into(), ..Default::default() }; mid.subs.push(leaf);
+            let mut c = CmdS { name: "prog".into(), ..Default::default() };
+            if at == 0 { c.settings.args_override_self = true; } else { mid.settings.args_override_self = true; }
+            c.subs.push(mid); c };
+        let mut cases: Vec<(CmdS, Vec<Vec<u8>>, Expect)> = vec![];
+        for at in [0usize, 1] {
+            cases.push((mk(at), bv(&["prog", "mid", "leaf", "--opt", "a", "--opt", "b"]), Box::new(|m| want_occs(m, &["mid", "leaf"], "opt", &[&["b"]]))));
+            cases.push((mk(at), bv(&["prog", "mid", "leaf", "--flag", "--flag", "--opt=x"]), Box::new(|m| want_occs(m, &["mid", "leaf"], "flag", &[&["true"]]))));
+        }
+        run_expect(&mut rep, o, "inherited-args_override_self-lost-below", cases);
+    }
+    crate::pcorr::run_generic(&mut rep, o, 0xC07);
     rep
 }
